@@ -57,15 +57,16 @@ def handleKernel (fs : List (String × String)) : String :=
       let lane : Option String :=
         if p.kind == .u8 ∧ p.n == 4 ∧ (ext == "sse4" ∨ ext == "avx2") ∧ pass == "h" ∧ got.size == dw * dh * 4 then Id.run do
           let q := normalize16 c
-          -- AVX2: only the four-row blocks are modelled (two rows per 256-bit register, each half = the SSE4.1 row)
-          let last := if ext == "sse4" then dh else dh - dh % 4
-          for y in [0:last] do
+          -- AVX2: the four-row blocks keep two rows per 256-bit register (each half = the SSE4.1 row), the leftover rows
+          -- go through the AVX2 one-row kernel (wide 8 / 4 steps with two half accumulators)
+          for y in [0:dh] do
             let row : List Int := (List.range (sw * 4)).map fun i => src[(offset + y) * sw * 4 + i]!
             for x in [0:dw] do
               let (start, ks) := q.chunks.getD x (0, #[])
               -- rows of complete four-row blocks: `horiz_convolution_four_rows`; leftover rows: `.._one_row`
               let px := if y < dh - dh % 4 then SimdU8x4.pixelR q.precision row start ks.toList
-                        else SimdU8x4.pixel q.precision row start ks.toList
+                        else if ext == "sse4" then SimdU8x4.pixel q.precision row start ks.toList
+                        else SimdU8x4.pixelA q.precision row start ks.toList
               for ch in [0:4] do
                 if px.getD ch 0 ≠ got[(y * dw + x) * 4 + ch]! then
                   return some s!"lane model of the {ext} U8x4 horizontal kernels: pixel ({x},{y}) channel {ch}: model={px.getD ch 0} got={got[(y * dw + x) * 4 + ch]!}"
